@@ -115,6 +115,18 @@ theorem cstep_totalRank {s s' : St} {a : Act} (hs : cstep s a = some s') :
           have := totalRank_set (th' := { th with pc := .start }) hget
           simp only [St.setThr]
           have hr : rank { th with pc := .start } ≤ rank th := by simp [rank, h.2]
+          omega)
+       | (cases hs
+          rename_i th hget _
+          have := totalRank_set (th' := { th with joined := true }) hget
+          simp only [St.setThr]
+          have hr : rank { th with joined := true } = rank th := rfl
+          omega)
+       | (cases hs
+          rename_i th hget _ _
+          have := totalRank_set (th' := { th with joined := true }) hget
+          simp only [St.setThr]
+          have hr : rank { th with joined := true } = rank th := rfl
           omega))
 
 /-- Once set, the shutdown event stays set. -/
@@ -255,6 +267,10 @@ theorem HoldsInv_step {s s' : St} {a : Act} (hI : HInv s) (h : HoldsInv s) (hs :
             apply HoldsInv_setThr h
             exact h th (mem_of_getElem? hget))
          | (cases hs
+            rename_i th hget _ _
+            apply HoldsInv_setThr h
+            exact h th (mem_of_getElem? hget))
+         | (cases hs
             rename_i th hget hc
             apply HoldsInv_setThr h
             intro hh
@@ -327,25 +343,60 @@ theorem ctl_releases_lock_when_unwound {n mx : Nat} {s : St} (hr : Reachable n m
     have hne : s.ctl.pc ≠ .tpUnlock := by simp [hidle]
     simp [step, Act.thread, cstep, hidle, hc]
 
-/-- **The launch epilogue never blocks** once the threads have exited: each join returns, the final
-save can begin and end, and `launch()` returns. -/
-theorem launch_epilogue_never_blocks (s : St) (hst : s.ctl.stopped = true)
-    (hall : ∀ th ∈ s.thr, th.pc = .done) :
-    (s.ctl.pc = .idle → ∀ t th, s.thr[t]? = some th → (cstep s (.cJoin t)).isSome = true) ∧
-    (s.ctl.pc = .idle → (cstep s .cFinalSaveBegin).isSome = true) ∧
+/-- **The launch epilogue never blocks** on anything but a thread that is still on its way out (which
+`shutdown_work_bounded` / `no_bg_deadlock_after_shutdown` cover): the liveness test of every thread
+can be made; a thread found not alive (exited, or never started because an interrupt cut the start-up
+short) is not joined at all; the join of an exited thread returns; once every thread has been dealt
+with the final save can begin and end, and `launch()` returns. -/
+theorem launch_epilogue_never_blocks (s : St) (hst : s.ctl.stopped = true) :
+    (s.ctl.pc = .idle → ∀ t th, s.thr[t]? = some th →
+        (cstep s (.cIsAlive t (th.pc != .new && th.pc != .done))).isSome = true) ∧
+    (s.ctl.pc = .idle → ∀ t th, s.thr[t]? = some th → th.pc = .done → (cstep s (.cJoin t)).isSome = true) ∧
+    (s.ctl.pc = .idle → (∀ th ∈ s.thr, th.joined = true) → (cstep s .cFinalSaveBegin).isSome = true) ∧
     (s.ctl.pc = .finalIn → s.ctl.inCb = false → (cstep s .cFinalSaveEnd).isSome = true) ∧
     (s.ctl.pc = .finalIn → s.ctl.inCb = true → (cstep s .cSaveCbEnd).isSome = true) ∧
     (s.ctl.pc = .returned → (cstep s .cReturn).isSome = true) := by
-  refine ⟨?_, ?_, ?_, ?_, ?_⟩
+  refine ⟨?_, ?_, ?_, ?_, ?_, ?_⟩
   · intro h t th hget
-    simp [cstep, hget, h, hst, hall th (mem_of_getElem? hget)]
-  · intro h
-    have : s.thr.all (fun x => x.pc == .done) = true := by
+    simp [cstep, hget, h, hst]
+  · intro h t th hget hd
+    simp [cstep, hget, h, hst, hd]
+  · intro h hall
+    have : s.thr.all (fun x => x.joined) = true := by
       rw [List.all_eq_true]; intro x hx; simp [hall x hx]
     simp [cstep, h, hst, this]
   · intro h hc; simp [cstep, h, hc]
   · intro h hc; simp [cstep, h, hc]
   · intro h; simp [cstep, h]
+
+/-- A thread the epilogue found not alive, or joined, is dealt with for good: it has exited or was
+never started, and stays so. -/
+theorem joined_is_settled {n mx : Nat} {s : St} (hr : Reachable n mx s) (th : BThread) (hth : th ∈ s.thr)
+    (hj : th.joined = true) : (th.pc = .done ∨ th.pc = .new) ∧ s.ctl.pc ≠ .boot := by
+  have hT := (reachable_inv hr).2 th hth
+  unfold TInv at hT
+  exact hT.2.2.2.2.2.2.2.2.2.2.2.2.2.2 hj
+
+/-- **An interrupt during start-up.** With only the first thread started, an interrupt leaves the
+start-up section; the epilogue shuts down, joins the started thread once it has exited, finds the
+other one not alive, saves and returns. -/
+def bootInterruptTrace : List Act :=
+  [.cSpawn 0, .cExc, .cShutdown, .cClockResume, .cSetResume, .cSetShutdown, .cShutdownRet,
+   .bCbBegin 0 .setup, .bCbEnd 0 .setup, .bReadResume 0 true, .bWaitImm 0, .bReadShutdown 0 true,
+   .bCbBegin 0 .teardown, .bCbEnd 0 .teardown, .bExit 0,
+   .cIsAlive 0 false, .cIsAlive 1 false, .cFinalSaveBegin, .cFinalSaveEnd, .cReturn]
+
+example : ∃ s, Reachable 2 2 s ∧ s.ctl.pc = .returned ∧
+    s.thr.map (·.pc) = [.done, .new] ∧ s.thr.map (·.tdBegun) = [1, 0] := by
+  refine ⟨(run (init 2 2) bootInterruptTrace).get (by decide), ⟨bootInterruptTrace, by simp⟩, ?_, ?_, ?_⟩ <;>
+    decide
+
+/-- The same interrupt with the first thread still running: its liveness test says alive, and the
+join is not enabled until it has exited. -/
+example : ∃ s, Reachable 2 2 s ∧ (cstep s (.cIsAlive 0 true)).isSome = true ∧ cstep s (.cJoin 0) = none ∧
+    cstep s .cFinalSaveBegin = none := by
+  refine ⟨(run (init 2 2) (bootInterruptTrace.take 7)).get (by decide),
+    ⟨bootInterruptTrace.take 7, by simp⟩, ?_, ?_, ?_⟩ <;> decide
 
 /-! Non-vacuity: from the C02 witness (shutdown issued while two threads are paused/blocked) the
 total rank is positive and a continuation spends some of it. -/
